@@ -2472,7 +2472,9 @@ def crosstab(
                 [all_levels[lvl] for lvl in column_levels]
             )
 
-        table = table[[c for c in columns if c in table]]
+        # select by position: table[[...]] reads a list of boolean labels as a row mask
+        keep = [c for c in columns if c in table.columns]
+        table = table.iloc[:, table.columns.get_indexer(keep)]
 
     return table
 
